@@ -383,3 +383,15 @@ Proof.
   - intros ->. rewrite Hpc in Hc. discriminate.
   - unfold in_cs. destruct (pc_of s t') as [|n' a'|n' a'|n' a']; cbn in Hc; try discriminate; injection Hc as -> ->; apply N.eqb_refl.
 Qed.
+
+(* the guard of the abstract mutex of Model/AtomicRMW.v: a Lock call gets past the inner mutex only when nobody is inside
+   the critical section of that name *)
+Theorem acquire_only_when_free s t n a : LInv s -> pc_of s t = Waiting n a -> snd (lk_step s (Acquire t)) = Done ->
+  forall t', in_cs s t' n = false.
+Proof.
+  intros I Hpc. cbn [lk_step]. rewrite Hpc. destruct (held (ctr_at s a)) as [h|] eqn:Hh; [discriminate|]. intros _ t'.
+  destruct (in_cs s t' n) eqn:E; [|reflexivity]. apply in_cs_cs in E as [a' Hc].
+  assert (Hf : find n (lmap s) = Some a) by (apply (I_refs s I t); rewrite Hpc; reflexivity).
+  pose proof (I_refs s I t' n a' (cs_refs _ _ _ Hc)) as Hf'. rewrite Hf in Hf'. injection Hf' as <-.
+  pose proof (I_held s I t' n a Hc). congruence.
+Qed.
